@@ -15,6 +15,9 @@
   5. every failing predicate is replayed once (vh-reads replay + TLC) before it may become a verdict
   6. negative control per property: one recorded output value is corrupted and TLC must reject it with the right predicate
 
+The same cached pipeline also decides the point-in-time halves of C01 / C03 / C04 (Inv_C01_ConservationAt, Inv_C03_MovesAt,
+Inv_C04_EffectiveAt): run_reads_stage(c, prop), called by checks/C01.py, C03.py, C04.py after their own pipeline.
+
 Predicates named Inv_Cxx_* / Step_Cxx_* belong to property Cxx.  Class predicates (see spec/TraceReads.tla) carry the
 signature of a known / suspected deviation: they are reported under that signature, never under the general one.
 """
